@@ -199,7 +199,7 @@ def main(argv=None):
     cfg = PROPS[prop]
     t0 = time.time()
     reg = tasks.load_contracts()
-    contracts = [c for c in reg.all if prop in c.props and not c.assumed]
+    contracts = [c for c in reg.all if prop in c.props and not c.assumed and (a.tier == 'thorough' or c.tier == 'quick')]
     if a.only:
         contracts = [c for c in contracts if a.only in c.name]
     opts = {'timeout_ms': 30000 if a.tier == 'quick' else 120000}
